@@ -142,6 +142,20 @@ def make_group(rng, kind, gi):
     elif kind in ("fn", "mod", "trait"):
         # explicit unimock: the feature must not matter
         g.variants.append(("feature-on-explicit", "entrait", args(forms), "A", "on"))
+    # both variant defaults at once: with the feature, entrait_export(args) == entrait(args + export + unimock) without it,
+    # where each of the two is only added when args does not set it explicitly
+    if kind in ("fn", "mod", "trait"):
+        g.variants.append(("export-variant-feature-on", "entrait_export", args(forms), "D", "on"))
+        f2 = dict(forms)
+        order = list(base_names)
+        if "unimock" not in f2:
+            f2["unimock"] = rng.choice(["bare", "true"])
+            order.append("unimock")
+        if kind != "trait" and "export" not in f2:
+            f2["export"] = rng.choice(["bare", "true"])
+            order.append("export")
+        rng.shuffle(order)
+        g.variants.append(("both-defaults-as-options", "entrait_export" if kind == "trait" else "entrait", args(f2, order), "D", "off"))
     g.nontrivial = bool(forms)
     g.forms = forms
     return g
